@@ -1,6 +1,6 @@
 (* Property C07 -- elections end with exactly one primary, the oldest node, and all agree (false of nun-db: proved refuted by witnesses; what does hold of the wait loops is proved) *)
 (* Statements only: each theorem restates the proved lemma's statement and is closed by [exact]. *)
-From NunDB Require Import Model.Base Model.Pending Model.Oplog Model.Parse Model.Node Model.Cluster Model.Election Proofs.ElectionProofs.
+From NunDB Require Import Model.Base Model.Pending Model.Oplog Model.Parse Model.Node Model.Cluster Model.Election Proofs.ElectionProofs Proofs.TwoNodeProofs.
 Local Open Scope list_scope.
 
 (* UNBOUNDED: every blocked election call returns after at most its measure of wake-ups, whatever the other threads do to the node in between *)
@@ -148,3 +148,111 @@ Theorem C07_no_quiescence_frames :
          Datatypes.length (e_frames e) = 2%nat /\ (weight (e_timeout e) (e_frames e) <= 2 * (20 + 2))%nat.
 Proof. exact C07_no_quiescence_frames. Qed.
 Print Assumptions C07_no_quiescence_frames.
+
+(* two nodes, ALL process ids and timeouts: a join sent to n1 ends (3 scheduler rounds) at a quiescent state with no blocked call, exactly one primary (n1), n2 secondary, and both member tables saying so *)
+Theorem C07_two_nodes_form :
+  forall pa pb timeout : N,
+         pa <> pb ->
+         0 < timeout ->
+         pa < 2 ^ 64 ->
+         pb < 2 ^ 64 ->
+         let e0 := two pa pb timeout in
+         exists F : nat,
+           forall fuel : nat,
+           (F <= fuel)%nat ->
+           let r := esettle fuel (cmd e0 "n1" 0 "join n2") in
+           let e1 := fst r in
+           snd r = true /\
+           quiescent e1 /\
+           esettle_round e1 = (e1, false) /\
+           e_frames e1 = [] /\
+           roles e1 = [("n1", Primary); ("n2", Secondary)] /\
+           member_tables e1 =
+           [("n1", [("n2", Secondary); ("n1", Primary)]); ("n2", [("n1", Primary); ("n2", Secondary)])].
+Proof. exact C07_two_nodes_form. Qed.
+Print Assumptions C07_two_nodes_form.
+
+(* the same with no hypothesis on pids or timeout at all *)
+Theorem C07_two_nodes_form_any :
+  forall pa pb timeout : N,
+         let e0 := two pa pb timeout in
+         exists F : nat,
+           forall fuel : nat,
+           (F <= fuel)%nat ->
+           let r := esettle fuel (cmd e0 "n1" 0 "join n2") in
+           let e1 := fst r in
+           snd r = true /\
+           quiescent e1 /\
+           esettle_round e1 = (e1, false) /\
+           e_frames e1 = [] /\
+           roles e1 = [("n1", Primary); ("n2", Secondary)] /\
+           member_tables e1 =
+           [("n1", [("n2", Secondary); ("n1", Primary)]); ("n2", [("n1", Primary); ("n2", Secondary)])].
+Proof. exact C07_two_nodes_form_any. Qed.
+Print Assumptions C07_two_nodes_form_any.
+
+(* every member table names exactly the primaries that exist *)
+Theorem C07_two_nodes_agree :
+  forall pa pb timeout : N,
+         exists F : nat,
+           forall fuel : nat,
+           (F <= fuel)%nat ->
+           let e1 := fst (esettle fuel (cmd (two pa pb timeout) "n1" 0 "join n2")) in
+           primaries e1 = ["n1"] /\
+           map fst (member_tables e1) = ["n1"; "n2"] /\
+           (forall (nm : str) (t : list (str * role)),
+            In (nm, t) (member_tables e1) -> table_primaries t = primaries e1).
+Proof. exact C07_two_nodes_agree. Qed.
+Print Assumptions C07_two_nodes_agree.
+
+(* the node that was asked wins whatever its age: the primary is the oldest node iff pa < pb (the recorded finding 'primary-is-not-the-oldest' for all pids) *)
+Theorem C07_two_nodes_oldest_iff :
+  forall pa pb timeout : N,
+         pa <> pb ->
+         exists F : nat,
+           forall fuel : nat,
+           (F <= fuel)%nat ->
+           let e1 := fst (esettle fuel (cmd (two pa pb timeout) "n1" 0 "join n2")) in
+           primaries e1 = ["n1"] /\
+           (forall nm : str, In nm (primaries e1) -> is_oldest e1 nm <-> older pa pb) /\
+           (older pb pa -> is_oldest e1 "n2" /\ In ("n2", Secondary) (roles e1) /\ ~ is_oldest e1 "n1").
+Proof. exact C07_two_nodes_oldest_iff. Qed.
+Print Assumptions C07_two_nodes_oldest_iff.
+
+(* the mirror image: asking n2 makes n2 the primary *)
+Theorem C07_two_nodes_form_asked_n2 :
+  forall pa pb timeout : N,
+         exists F : nat,
+           forall fuel : nat,
+           (F <= fuel)%nat ->
+           let r := esettle fuel (cmd (two pa pb timeout) "n2" 0 "join n1") in
+           let e1 := fst r in
+           snd r = true /\
+           quiescent e1 /\
+           e_frames e1 = [] /\
+           roles e1 = [("n1", Secondary); ("n2", Primary)] /\
+           member_tables e1 =
+           [("n1", [("n2", Primary); ("n1", Secondary)]); ("n2", [("n1", Secondary); ("n2", Primary)])].
+Proof. exact C07_two_nodes_form_asked_n2. Qed.
+Print Assumptions C07_two_nodes_form_asked_n2.
+
+(* apart from the pid and timeout fields the final state is one fixed state *)
+Theorem C07_two_nodes_pid_independent :
+  forall pa pb timeout : N, erase_pids (formed pa pb timeout) = erase_pids (formed 100 200 20).
+Proof. exact C07_two_nodes_pid_independent. Qed.
+Print Assumptions C07_two_nodes_pid_independent.
+
+(* at a quiescent state no link can move a line *)
+Theorem C07_quiescent_no_link_step :
+  forall (e : ecl) (i : nat), quiescent e -> edeliver e i = None /\ ereply e i = None.
+Proof. exact quiescent_no_link_step. Qed.
+Print Assumptions C07_quiescent_no_link_step.
+
+(* instance with the younger node asked *)
+Theorem C07_two_nodes_form_200_100 :
+  let r := esettle 200 (cmd (mk_ecl [("n1", 200, K1); ("n2", 100, K2)]) "n1" 0 "join n2") in
+         snd r = true /\
+         e_frames (fst r) = [] /\
+         roles (fst r) = [("n1", Primary); ("n2", Secondary)] /\ pids (fst r) = [("n1", 200); ("n2", 100)].
+Proof. exact C07_two_nodes_form_200_100. Qed.
+Print Assumptions C07_two_nodes_form_200_100.
